@@ -85,7 +85,7 @@ def gen(rng, tier):
              "y ~ (0 + f | g + h) + (1 | g)", "y ~ (x | g:h)", "y ~ C(k):o", "y ~ o + c", "f ~ x", "y ~ (f | C(k))"]
     for f in fixed:
         cases.append({"formula": f, "frame": gen_dm.make_frame(rng), "na": "drop", "kind": "fixed"})
-    # a spline basis with no column at all (df=0, degree=0, no intercept): listed finding KF-C04-1
+    # a spline basis with no column at all (df=0, degree=0, no intercept): listed finding KF-C04-2
     for f in ["y ~ bs(x, df=0, degree=0)", "y ~ z + bs(x, df=0, degree=0)", "y ~ x + (bs(z, df=0, degree=0) | g)"]:
         cases.append({"formula": f, "frame": gen_dm.make_frame(rng), "na": "drop", "kind": "zero-width"})
     return cases
